@@ -625,7 +625,22 @@ class Body:
             sub = tuple(self._def_expr(d, [], depth - 2, seen) for d in defs[:8])
             return ("var", name or f"_{local}", proj_path(projs), sub)
         seen = seen | {(local, tuple(projs))}
-        return self._def_expr(defs[0], projs, depth, seen)
+        e = self._def_expr(defs[0], projs, depth, seen)
+        partial = self.defs.get((local, "partial"), [])
+        if partial and not projs:
+            # the value was also written through field projections / raw writes (e.g. `vec![x]`
+            # initialising a fresh Box): keep what was written
+            ws = []
+            for d in partial[:6]:
+                if d[0] == "assign":
+                    rv = d[3]["rv"]
+                    if rv["r"] == "use":
+                        ws.append(self.expr(rv["o"], depth - 2, seen))
+                    elif rv["r"] == "agg":
+                        ws.extend(self.expr(o, depth - 2, seen) for o in rv["ops"])
+            if ws:
+                return ("with", e, tuple(ws))
+        return e
 
     def _def_expr(self, d, projs, depth, seen):
         if depth <= 0:
@@ -930,6 +945,10 @@ def walk(e):
     elif k == "var":
         for x in e[3]:
             yield from walk(x)
+    elif k == "with":
+        yield from walk(e[1])
+        for x in e[2]:
+            yield from walk(x)
 
 
 def calls_in(e, name=None):
@@ -988,4 +1007,43 @@ def show(e, depth=0):
         return f"{show(e[1], depth + 1)}.{'.'.join(e[2])}"
     if k == "agg":
         return f"{e[1]}::{e[2]}{{…}}"
+    if k == "with":
+        return f"{show(e[1], depth + 1)}{{+= {', '.join(show(x, depth + 1) for x in e[2])}}}"
     return str(e)
+
+
+def same_value(a, b):
+    """Do two expression trees denote the same run-time value?  Calls are compared by call site
+    (callee + block), variables by name + projection, everything else structurally via show()."""
+    a, b = strip_casts(a), strip_casts(b)
+    if not (isinstance(a, tuple) and isinstance(b, tuple) and a and b):
+        return a == b
+    if a[0] != b[0]:
+        return False
+    if a[0] == "call":
+        return a[1] == b[1] and a[3] == b[3]
+    if a[0] == "await":
+        return a[2] == b[2]
+    if a[0] == "var":
+        return a[1] == b[1] and a[2] == b[2]
+    if a[0] == "proj":
+        return a[2] == b[2] and same_value(a[1], b[1])
+    return show(a) == show(b)
+
+
+def last_field(e):
+    """Name of the innermost field a path / projection expression ends in (None otherwise)."""
+    e = strip_casts(e)
+    if isinstance(e, tuple) and e:
+        if e[0] == "path":
+            return e[1].split(".")[-1]
+        if e[0] == "proj" and e[2]:
+            return e[2][-1]
+        if e[0] == "var" and e[2]:
+            return e[2][-1]
+    return None
+
+
+def field_leaves(e):
+    """Last field names of every path / projection node in an expression tree."""
+    return [f for f in (last_field(x) for x in walk(e)) if f]
